@@ -194,6 +194,26 @@ def make_defs(tier: str, seed: int):
                 feats = {"iter": {}, "range": {"vis": v}}
             did += 1
             defs.append(Def(did, "pub" if (did % 2 or f == "iter") else "crate", Config(feats), did % 3 == 0))
+    # the iterator structs are emitted by one generator per iterator mode: every mode (explicit, and table mode reached
+    # through auto because another feature already needs the tables) x a vis narrower than the enum's x gapless / holes
+    # (round 5, V15a: the table-mode struct took the enum's visibility; the random definitions never combined the two)
+    for kind, vs in (("pub", ["", "pub(crate)"]), ("crate", [""])):
+        for v in vs:
+            for holes in (False, True):
+                for extra in ({"mode": "next_and_back"}, {"mode": "table"}, {"mode": "table_inline"}, {"mode": "range"}, {}):
+                    if extra.get("mode") == "range" and holes:
+                        continue
+                    for more in ({}, {"from_str": {"mode": "table"}}, {"names": {"vis": v}, "as_str": {"mode": "table"}}):
+                        if more and extra:
+                            continue  # the auto resolution is what the co-enabled table features are there for
+                        if tier == "quick" and kind == "crate" and not (extra.get("mode") == "table" or more):
+                            continue
+                        feats = {"iter": dict(extra, vis=v)}
+                        feats.update({k: dict(x) for k, x in more.items()})
+                        if (did + len(v)) % 2:
+                            feats["iter"]["struct_name"] = "Walk"
+                        did += 1
+                        defs.append(Def(did, kind, Config(feats), holes))
     return defs
 
 
